@@ -336,6 +336,7 @@ pub fn explore<F: Fn(&Ch) -> Run + Sync>(body: &F, cfg: &ExploreCfg) -> Stats {
           .stack_size(256 << 20)
           .spawn_scoped(s, move || {
             let mut st = Stats::default();
+            let mut sig_counts: std::collections::HashMap<String, usize> = Default::default();
             loop {
               let prefix = {
                 let mut g = shared.stack.lock().unwrap();
@@ -408,7 +409,11 @@ pub fn explore<F: Fn(&Ch) -> Run + Sync>(body: &F, cfg: &ExploreCfg) -> Stats {
                   st.max_points = st.max_points.max(trace.len());
                   let picks: Vec<u32> = trace.iter().map(|p| p.pick).collect();
                   for v in run.violations {
-                    if st.violations.len() < 64 {
+                    // keep a few witnesses per *signature* so that frequent
+                    // (e.g. known) signatures cannot crowd out rare ones
+                    let c = sig_counts.entry(v.signature.clone()).or_insert(0usize);
+                    if *c < 3 {
+                      *c += 1;
                       st.violations.push((picks.clone(), v));
                     }
                   }
